@@ -26,7 +26,9 @@ fn settings(g: &mut Sm, focus: &str) -> String {
     let (steps, inner) = *g.pick(grid);
     let kt_start = match focus {
         "C05" => 0.,
-        "C18" | "C07" => *g.pick(&[0.1, 0.5, 1e-3, 0.05, 2.0, 0.]),
+        "C18" => *g.pick(&[0.1, 0.5, 1e-3, 0.05, 2.0, 0.]),
+        // C07/C08: an undefined score is never accepted, whatever the temperature - also infinite, NaN, negative
+        "C07" | "C08" => *g.pick(&[0.1, 0.5, 1e-3, 0.05, 2.0, 0., f64::INFINITY, f64::NAN, -0.1, 1e300]),
         _ => *g.pick(&[0., 0.1, 0.5, 1e-3, 0.]),
     };
     let kt_finish: Option<f64> = match g.below(4) {
@@ -114,11 +116,13 @@ pub fn gen(focus: &str, seed: u64, count: u64) -> Vec<String> {
                 _ => *g.pick(&["smooth", "forced", "lnthr", "plateau", "weird"]),
             };
             format!(
-                "state=scripted script={} n={} share={} sseed={}",
+                "state=scripted script={} n={} share={} sseed={}{}",
                 script,
                 1 + g.below(9),
                 if g.chance(0.4) { 1 + g.below(3) } else { 0 },
-                g.below(100_000)
+                g.below(100_000),
+                // C06 quantifies over all states: some start outside their declared ranges
+                if focus == "C06" && g.chance(0.2) { " outside=1" } else { "" }
             )
         };
         let mut st = settings(&mut g, focus);
@@ -128,6 +132,16 @@ pub fn gen(focus: &str, seed: u64, count: u64) -> Vec<String> {
             let steps = s.u("steps").min(3000);
             s.kv.insert("steps".into(), steps.to_string());
             st = s.kv.iter().map(|(k, v)| format!("{}={}", k, v)).collect::<Vec<_>>().join(" ");
+        }
+        // C09 / C20: the optimiser object has been used before (few loops, convergence threshold set)
+        if !real && ((focus == "C09" && g.chance(0.4)) || ((focus == "C20" || focus == "C06") && g.chance(0.1))) {
+            let (steps, inner) = *g.pick(&[(3000u64, 1000u64), (2500, 1000), (10, 3), (7, 7), (4000, 1000), (80, 20), (2000, 1000)]);
+            let mut s = Spec::parse(&format!("opt {}", st));
+            s.kv.insert("steps".into(), steps.to_string());
+            s.kv.insert("inner".into(), inner.to_string());
+            s.kv.insert("conv".into(), fmt_f(*g.pick(&[1e-3, 1., 0.02, f64::INFINITY])));
+            st = s.kv.iter().map(|(k, v)| format!("{}={}", k, v)).collect::<Vec<_>>().join(" ");
+            st.push_str(" reuse=1");
         }
         out.push(format!("opt id={}-{} {} {}", focus, i, head, st));
     }
